@@ -150,26 +150,37 @@ def load(pe, req):
     return pe.input.dobs.read_pobs(req["path"], gz=req["gz"], **kw)
 
 
-def explain_zero_or_mean(exp, got):
-    """is an idl mismatch fully explained by samples that are exactly 0 or exactly equal to the central value?"""
-    for e, g in zip(exp, got):
-        if not (isinstance(g, dict) and "__obs__" in g):
-            return False
+def adjusted_for_zero_samples(exp):
+    """the expectation under the KNOWN format-inherent finding: configurations whose stored number is exactly 0
+    (sample equals the central value) or whose sample is exactly 0 are dropped by the importer, everything else
+    must still be reproduced.  Returns (adjusted expectation, number of dropped samples)."""
+    out, ndrop = [], 0
+    for e in exp:
+        a = dict(e, idl={}, deltas={}, r_values={}, names=[n for n in e["names"] if n in e["cov"]])
         for n in e["idl"]:
-            ei = list(objs.idl_obj(list(e["idl"][n]) if isinstance(e["idl"][n], tuple) else e["idl"][n]))
-            gn = g["idl"].get(n)
-            gi = [] if gn is None else list(objs.idl_obj(list(gn) if isinstance(gn, tuple) else gn))
-            if ei == gi:
-                continue
-            missing = set(ei) - set(gi)
-            if set(gi) - set(ei) or not missing:
-                return False
+            idl = list(objs.idl_obj(list(e["idl"][n]) if isinstance(e["idl"][n], tuple) else e["idl"][n]))
             x = e["deltas"][n] + e["r_values"][n]
-            for k, c in enumerate(ei):
-                stored = e["deltas"][n][k] + (e["r_values"][n] - e["value"])
-                if c in missing and not (x[k] == 0.0 or stored == 0.0 or abs(x[k]) < 1e-300):
-                    return False
-    return True
+            stored = e["deltas"][n] + (e["r_values"][n] - e["value"])
+            back = stored + e["value"]
+            keep = [k for k in range(len(idl)) if not (stored[k] == 0.0 or back[k] == 0.0)]
+            ndrop += len(idl) - len(keep)
+            if not keep:
+                continue
+            xs = np.array([x[k] for k in keep])
+            if len(set(np.round(xs - e["value"], 300))) == 1 and np.all(back[keep] == e["value"]):
+                continue
+            r = float(np.mean(xs))
+            kept = [idl[k] for k in keep]
+            d = set(b - a_ for a_, b in zip(kept, kept[1:]))
+            a["idl"][n] = ("range", kept[0], kept[0] + len(kept) * d.copy().pop(), d.pop()) if len(d) == 1 else kept
+            if len(kept) == 1:
+                a["idl"][n] = [kept[0]]
+            a["deltas"][n] = xs - r
+            a["r_values"][n] = r
+            a["names"].append(n)
+        a["names"] = sorted(a["names"])
+        out.append(a)
+    return out, ndrop
 
 
 def execute(plan, ctx):
@@ -313,8 +324,10 @@ def do_export(ctx, pe, op, plan, d, clock, faults, files, partner):
             try:
                 got = gen.canon(load(pe, m))
                 dd = gen.diff(exp, got, check_tag=False, check_rw=False)
-                if dd and not explain_zero_or_mean(exp, got):
-                    ctx.violation("c12.torn_archive_loaded", comp, fault["err"], "archive left by a failed export imported as something else: %s" % dd)
+                if dd:
+                    adj, nd = adjusted_for_zero_samples(exp)
+                    if not nd or gen.diff(adj, got, check_tag=False, check_rw=False, tol=256 * np.finfo(float).eps):
+                        ctx.violation("c12.torn_archive_loaded", comp, fault["err"], "archive left by a failed export imported as something else: %s" % dd)
             except Exception:
                 ctx.probe("torn_archive_rejected")
         files[op["name"]] = "fault"
@@ -354,10 +367,14 @@ def judge(ctx, comp, sep, exp, got, back, obsl, hist, where):
         pass
     dd = gen.diff(exp, got, check_tag=False, check_rw=False, tol=256 * np.finfo(float).eps)
     if dd:
-        if isinstance(got, list) and len(got) == len(exp) and explain_zero_or_mean(exp, got):
+        adj, nd = adjusted_for_zero_samples(exp) if (isinstance(got, list) and len(got) == len(exp)) else (None, 0)
+        d2 = gen.diff(adj, got, check_tag=False, check_rw=False, tol=256 * np.finfo(float).eps) if nd else dd
+        if nd and d2 is None:
+            # exactly the known, format-inherent loss and nothing else
             ctx.violation("c12.roundtrip", comp.split("/")[0], "sample_equals_zero_or_mean", "%s [%s, %s]" % (dd, hist, where))
         else:
-            ctx.violation("c12.roundtrip", comp, "sep_false" if sep == "false" else c11.disc_of(dd, sep), "%s [%s, %s]" % (dd, hist, where))
+            d2 = d2 or dd
+            ctx.violation("c12.roundtrip", comp, "sep_false" if sep == "false" else c11.disc_of(d2, sep), "%s [%s, %s]" % (d2, hist, where))
         return
     ctx.probe("roundtrip_ok")
     if back is not None:
